@@ -478,6 +478,23 @@ def Val.Sound (σ : V → Bool) (v : Val V) (t : Tree V) : Prop :=
 
 def Val.isIneq : Val V → Bool | .ineq _ => true | .bool _ => true | _ => false
 
+theorem Val.sound_val {σ : V → Bool} {v : Val V} {t : Tree V} (hi : v.isIneq = false) (h : v.Sound σ t) :
+    v.val σ = t.den σ := by
+  cases v <;> simp [Val.isIneq] at hi <;> exact h
+
+theorem Val.sound_of_val {σ : V → Bool} {v : Val V} {t : Tree V} (hi : v.isIneq = false) (h : v.val σ = t.den σ) :
+    v.Sound σ t := by
+  cases v <;> simp [Val.isIneq] at hi <;> exact h
+
+theorem Tree.den_sumFrom (σ : V → Bool) (items : List (Tree V)) (start : Tree V) :
+    (Tree.sumFrom start items).den σ = start.den σ + (items.map (Tree.den σ)).sum := by
+  induction items generalizing start with
+  | nil => simp [Tree.sumFrom]
+  | cons x r ih =>
+    have := ih (.add start x)
+    simp only [Tree.sumFrom, List.foldl_cons, List.map_cons, List.sum_cons] at this ⊢
+    rw [this]; simp [Tree.den]; omega
+
 theorem Num.toInt_neg (n : Num) : n.neg.toInt = - n.toInt := by
   cases n with
   | int z => rfl
@@ -530,10 +547,16 @@ theorem addLT_sound (σ : V → Bool) {a : Operand V} {b v : Val V} (h : addLT a
     simp [Val.isIneq, Val.val, Expr.eval_add, eval_empty, operand_val σ ho]
   · simp at h
 
+theorem numAdd_sound (σ : V → Bool) {a b : Num} {v : Val V} (h : numAdd a b = .ok v) :
+    v.isIneq = false ∧ v.val σ = a.toInt + b.toInt ∧ ∃ n, v = .num n := by
+  cases a <;> cases b <;> simp [numAdd] at h
+  subst h; simp [Val.isIneq, Val.val, Num.toInt]
+
 theorem pyAdd_sound (σ : V → Bool) {x y v : Val V} (h : pyAdd x y = .ok v) :
     v.isIneq = false ∧ v.val σ = x.val σ + y.val σ := by
   cases x <;> cases y <;> simp only [pyAdd] at h <;>
     first
+    | (obtain ⟨h1, h2, _⟩ := numAdd_sound σ h; exact ⟨h1, h2⟩)
     | (simp [Val.operand?] at h; done)
     | (obtain ⟨h1, h2⟩ := addLT_sound σ h; refine ⟨h1, ?_⟩; simp only [Operand.val, Val.val] at h2 ⊢; omega)
     | (simp [Val.operand?] at h; subst h; simp [Val.isIneq, Val.val, Expr.eval_add, Operand.val])
@@ -655,6 +678,7 @@ theorem addLT_nf {a : Operand V} {b v : Val V} (h : addLT a b = .ok v) : v.NF :=
 theorem pyAdd_nf {x y v : Val V} (h : pyAdd x y = .ok v) (hx : x.NF) : v.NF := by
   cases x <;> cases y <;> simp only [pyAdd] at h <;>
     first
+    | (obtain ⟨_, _, n, hn⟩ := numAdd_sound (fun _ => true) h; subst hn; trivial)
     | (simp [Val.operand?] at h; done)
     | exact addLT_nf h
     | (simp [Val.operand?] at h; subst h; exact Expr.nf_add _ hx)
